@@ -29,6 +29,9 @@ var Matchers = []Matcher{
 	{"matchers: [ 'b=\"1\"', 'a!~\"2\"' ]", func(ls map[string]string) bool { return ls["b"] == "1" && !ReFull("2").MatchString(ls["a"]) }},
 	{"match: { a: '1' }", func(ls map[string]string) bool { return ls["a"] == "1" }},
 	{"match_re: { b: '1|3' }", func(ls map[string]string) bool { return ReFull("1|3").MatchString(ls["b"]) }},
+	// both syntaxes on one route, three new-style matchers (a decoded list of 3 has spare capacity) and a legacy one
+	// that sorts in front of the last of them
+	{"matchers: [ 'a=~\".*\"', 'b=~\".*\"', 'c=\"\"' ]\nmatch: { a: '1' }", func(ls map[string]string) bool { return ls["a"] == "1" && ls["c"] == "" }},
 	// a negative regex that also matches the empty string: false for an alert WITHOUT the label
 	{"matchers: [ 'a!~\"|1\"' ]", func(ls map[string]string) bool { return !ReFull("|1").MatchString(ls["a"]) }},
 }
@@ -51,7 +54,9 @@ func (n *Node) yaml(ind string, sb *strings.Builder, root bool) {
 		w("receiver: " + n.Recv)
 	}
 	if !root && Matchers[n.M].YAML != "" {
-		w(Matchers[n.M].YAML)
+		for _, l := range strings.Split(Matchers[n.M].YAML, "\n") {
+			w(l)
+		}
 	}
 	if n.Cont {
 		w("continue: true")
